@@ -323,6 +323,7 @@ _FLOATFN = {
     "atan2": math.atan2,
     "abs": abs,
     "nonneg": lambda x: x,
+    "remainder": lambda a, b: a - b * math.floor(a / b),
 }
 
 
@@ -345,6 +346,8 @@ def fn(name, *xs):
             return abs(xs[0])
         if name == "nonneg":
             return xs[0]
+        if name == "remainder" and xs[1] != 0:
+            return xs[0] - xs[1] * (xs[0] / xs[1]).__floor__()
         if name == "atan2" and xs[0] == 0 and xs[1] > 0:
             return Fraction(0)
         if name == "sqrt" and xs[0] >= 0:
@@ -517,6 +520,8 @@ def diff(x, v, memo=None):
                 r = Fraction(0)
             else:
                 r = div(add(mul(xx, dy), neg(mul(y, dx))), add(power(xx, 2), power(y, 2)))
+        elif name == "remainder":
+            r = da  # piecewise x - m*floor(x/m) for a constant modulus: derivative 1 almost everywhere
         elif isinstance(da, Fraction) and da == 0:
             r = Fraction(0)
         elif name == "exp":
